@@ -446,12 +446,21 @@ def r4_scheduling(ctx):
         ctx.check(bool(stores) and any(b.postdominates(s, 0) for s in stores), "%s/remembers-last-state" % fn_name, site_of(b), "the previous state is not stored on every evaluation")
 
 
+
+def r5_buffered_events_not_for_new_sessions(ctx):
+    """Server events buffered before a client (re)connected are not delivered to its new session: the connect observer excludes the
+    client from every pending set, and later events go into fresh sets (same rule as C05.R2)."""
+    import rules.C05 as C05
+    C05.r2_late_joiners(ctx)
+
+
 RULES = [
     ("C09.R1", "client: everything the session writes is classified and reset state is cleared on the status edge", r1_client, 12, ["default", "all-features", "client-only"]),
     ("C09.R1b", "clear() of every session-state type touches every field", r1b_clear_complete, 3, None),
     ("C09.R2", "server: everything the session writes is classified, reset on stop, per-client state dies with the client entity", r2_server, 15, ["default", "all-features", "server-only"]),
     ("C09.R3", "status changes purge the message queues; queues are closed outside a session", r3_purge, 10, None),
     ("C09.R4", "reset systems run on the right status edges and before the next receive", r4_scheduling, 8, ["default", "all-features"]),
+    ("C09.R5", "events buffered before a (re)connect never reach the new session (same rule as C05.R2)", r5_buffered_events_not_for_new_sessions, 6, ["default", "all-features", "server-only"]),
 ]
 THOROUGH_CONFIGS = ["default", "all-features", "server-only", "client-only"]
 
